@@ -238,7 +238,7 @@ func (c *Ctx) Violation(id, class string, detail map[string]interface{}) {
 	os.WriteFile(p, b, 0o644)
 	fmt.Fprintf(Out, "VIOLATION property=%s replay=%s\n", c.Prop, p)
 	if s, ok := detail["summary"]; ok {
-		fmt.Fprintf(Out, "  %v\n", s)
+		fmt.Fprintf(Out, "  %v\n", strings.ReplaceAll(fmt.Sprint(s), "\x00", "\\x00"))
 	}
 }
 
